@@ -732,7 +732,8 @@ int reb_collision_resolve_hardsphere(struct reb_simulation* const r, struct reb_
 #ifdef MPI
     if (isloc==1){
 #endif // MPI
-    const double p2pf = p1.m/(p1.m+p2.m);
+    // Two massless particles: treat them as equal masses rather than dividing by zero.
+    const double p2pf = (p1.m+p2.m!=0.) ? p1.m/(p1.m+p2.m) : 0.5;
     particles[c.p2].vx -=    p2pf*dvx2n;
     particles[c.p2].vy -=    p2pf*dvy2nn;
     particles[c.p2].vz -=    p2pf*dvz2nn;
@@ -740,7 +741,7 @@ int reb_collision_resolve_hardsphere(struct reb_simulation* const r, struct reb_
 #ifdef MPI
     }
 #endif // MPI
-    const double p1pf = p2.m/(p1.m+p2.m);
+    const double p1pf = (p1.m+p2.m!=0.) ? p2.m/(p1.m+p2.m) : 0.5;
     particles[c.p1].vx +=    p1pf*dvx2n; 
     particles[c.p1].vy +=    p1pf*dvy2nn; 
     particles[c.p1].vz +=    p1pf*dvz2nn; 
@@ -837,12 +838,22 @@ int reb_collision_resolve_merge(struct reb_simulation* const r, struct reb_colli
     }
     
     // Merge by conserving mass, volume and momentum
-    pi->vx = (pi->vx*pi->m + pj->vx*pj->m)*invmass;
-    pi->vy = (pi->vy*pi->m + pj->vy*pj->m)*invmass;
-    pi->vz = (pi->vz*pi->m + pj->vz*pj->m)*invmass;
-    pi->x  = (pi->x*pi->m + pj->x*pj->m)*invmass;
-    pi->y  = (pi->y*pi->m + pj->y*pj->m)*invmass;
-    pi->z  = (pi->z*pi->m + pj->z*pj->m)*invmass;
+    if (pi->m + pj->m != 0.){
+        pi->vx = (pi->vx*pi->m + pj->vx*pj->m)*invmass;
+        pi->vy = (pi->vy*pi->m + pj->vy*pj->m)*invmass;
+        pi->vz = (pi->vz*pi->m + pj->vz*pj->m)*invmass;
+        pi->x  = (pi->x*pi->m + pj->x*pj->m)*invmass;
+        pi->y  = (pi->y*pi->m + pj->y*pj->m)*invmass;
+        pi->z  = (pi->z*pi->m + pj->z*pj->m)*invmass;
+    }else{
+        // Two massless particles: no mass weighting possible, the merged particle sits at the midpoint.
+        pi->vx = 0.5*(pi->vx + pj->vx);
+        pi->vy = 0.5*(pi->vy + pj->vy);
+        pi->vz = 0.5*(pi->vz + pj->vz);
+        pi->x  = 0.5*(pi->x + pj->x);
+        pi->y  = 0.5*(pi->y + pj->y);
+        pi->z  = 0.5*(pi->z + pj->z);
+    }
     pi->m  = pi->m + pj->m;
     pi->r  = cbrt(pi->r*pi->r*pi->r + pj->r*pj->r*pj->r);
     pi->last_collision = r->t;
